@@ -40,8 +40,11 @@ KNOWN_CIRCLE = c06.KNOWN_CIRCLE
 @st.composite
 def obstacle(draw, oid, net, t0=None, allow_none=True, pred_shape=True):
     role = draw(st.sampled_from(["static", "dynamic", "dynamic"]))
+    # a polygon need not be placed around the origin: its reference point (the state's position) can lie outside it
+    off_poly = st.tuples(st.floats(-8, 8), st.floats(-8, 8)).flatmap(
+        lambda c: gg.star_polygon(center=[c[0], c[1]], rmin=0.3, rmax=3.0))
     shape = draw(st.one_of(gg.rectangle(centered=True, free_orientation=False), gg.circle(centered=True),
-                           gg.polygon(centered=True)))
+                           gg.polygon(centered=True), off_poly))
     t0 = draw(st.integers(0, 3)) if t0 is None else t0
     spec = draw(c06.point_spec())
     p = c06.point_from_spec(net, spec)
